@@ -20,10 +20,26 @@ def cases(tier, seed):
         for times in itertools.product(range(4), repeat=n):
             if tier == "quick" and n >= 4 and (times[0] > 1 or times[-1] < 2):
                 continue
-            for kind in ("list", "dict", "dict-rev"):
-                if kind != "list" and len(sh) != 2:
+            for kind in ("list", "dict", "dict-rev", "list-mixed-units"):
+                if kind not in ("list", "list-mixed-units") and len(sh) != 2:
                     continue
+                if kind == "list-mixed-units" and (len(sh) < 2 or times != tuple(sorted(times))):
+                    continue        # surveys in different velocity units: time-ordered layouts only (keeps the scope small)
                 yield f"{sh}/{times}/{kind}", {"shape": list(sh), "times": list(times), "kind": kind}
+
+
+def interleaved(inp):
+    """the merged rows, survey after survey (each survey time-sorted), are NOT already in time order: the layout on which the
+    listed open finding (labels not reordered with the time sort) manifests"""
+    sh, tm = inp["shape"], inp["times"]
+    pos, blocks = 0, []
+    for s in sh:
+        blocks.append(sorted(tm[pos:pos + s]))
+        pos += s
+    if inp["kind"] == "dict-rev":
+        blocks.reverse()        # the dict lists the second survey first
+    seq = [x for b in blocks for x in b]
+    return any(seq[i] > seq[i + 1] for i in range(len(seq) - 1))
 
 
 def nontrivial(inp):
@@ -52,11 +68,16 @@ def check(inp):
         err = 0.1 * (k + 1) + 0.01 * np.arange(s)
         pos += s
         # each source is itself a (time-sorted) RVData; remember what it holds
-        d = RVData(Time(t, format="mjd", scale="tcb"), rv * u.km / u.s, err * u.km / u.s)
+        if inp["kind"] == "list-mixed-units" and k >= 1:
+            # the same physical observations, stored in m/s (velocities) and cm/s (uncertainties)
+            d = RVData(Time(t, format="mjd", scale="tcb"), (rv * u.km / u.s).to(u.m / u.s), (err * u.km / u.s).to(u.cm / u.s))
+        else:
+            d = RVData(Time(t, format="mjd", scale="tcb"), rv * u.km / u.s, err * u.km / u.s)
         srcs.append(d)
-        for a, b, c in zip(d.t.tcb.mjd, d.rv.value, d.rv_err.value):
-            rows.append((float(a), float(b), float(c), k))
-    if inp["kind"] == "list":
+        for a, b, c in zip(d.t.tcb.mjd, d.rv.to_value(u.km / u.s), d.rv_err.to_value(u.km / u.s)):
+            rows.append((float(a), round(float(b), 9), round(float(c), 9), k))
+    tag = "[interleaved]" if interleaved(inp) else ""
+    if inp["kind"] in ("list", "list-mixed-units"):
         data = srcs
         keyof = {k: k for k in range(len(sh))}
     elif inp["kind"] == "dict":
@@ -66,10 +87,14 @@ def check(inp):
         data = {"B": srcs[1], "A": srcs[0]}
         keyof = {0: "A", 1: "B"}
     all_data, ids, M = validate_prepare_data(data, poly_trend=2, n_offsets=len(sh) - 1)
-    got = [(float(a), float(b), float(c), i) for a, b, c, i in zip(all_data.t.tcb.mjd, all_data.rv.value, all_data.rv_err.value, ids)]
+    got = [(float(a), round(float(b), 9), round(float(c), 9), i)
+           for a, b, c, i in zip(all_data.t.tcb.mjd, all_data.rv.to_value(u.km / u.s), all_data.rv_err.to_value(u.km / u.s), ids)]
+    if sorted(r[:3] for r in got) != sorted(r[:3] for r in rows):
+        bad("merged-observations-are-the-union-of-the-inputs", got=got, want=sorted(rows))
+        return fails
     want = sorted((a, b, c, keyof[k]) for a, b, c, k in rows)
     if sorted(got, key=lambda r: (r[0], r[1])) != sorted(want, key=lambda r: (r[0], r[1])):
-        bad("each-observation-keeps-its-survey-label", got=got, want=want)
+        bad("each-observation-keeps-its-survey-label" + tag, got=got, want=want)
         return fails
     if any(got[i][0] > got[i + 1][0] for i in range(len(got) - 1)):
         bad("time-ordered", got=got)
@@ -82,7 +107,7 @@ def check(inp):
     for r, row in enumerate(got):
         for j in range(1, len(sh)):
             if M[r, j] != (1.0 if row[3] == unq[j] else 0.0):
-                bad("offset-column-marks-exactly-its-survey", r=r, j=j, M=M.tolist(), ids=[str(x) for x in ids])
+                bad("offset-column-marks-exactly-its-survey" + tag, r=r, j=j, M=M.tolist(), ids=[str(x) for x in ids])
                 return fails
         if M[r, 0] != 1.0 or abs(M[r, len(sh)] - (row[0] - all_data._t_ref_bmjd)) > 1e-9:
             bad("constant-and-trend-columns", r=r)
